@@ -11,7 +11,7 @@ Lemma skip_stop : forall f p c fuel, f (step_at p c) = false -> skip f p c fuel 
 Proof. intros f p c [|fuel] H; cbn [skip]; [reflexivity|]. rewrite H, andb_false_r. reflexivity. Qed.
 
 Lemma fst_p_start_false : forall p s nm (ats : list (N * V)),
-  fst (p_start V false p s nm ats) = fst (p_start_faithful V p s nm ats).
+  fst (p_start V false false p s nm ats) = fst (p_start_faithful V p s nm ats).
 Proof. intros. unfold p_start. destruct (p_start_faithful V p s nm ats). reflexivity. Qed.
 
 (** startElement in the middle of a child-only match: the element is tested against step [k] *)
@@ -70,13 +70,13 @@ Definition dead_state (s : pst) (ed : nat) (md : option nat) : Prop :=
   (forall x, md = Some x -> x <= ed).
 
 Lemma dead_run : forall p (t : tree V) a s ed md,
-  dead_state s ed md -> sel_run V false p t a (s, ed, md) = ((s, ed, md), []).
+  dead_state s ed md -> sel_run V false false p t a (s, ed, md) = ((s, ed, md), []).
 Proof.
   intros p t. induction t as [nm ats sm nl v ks IH] using tree_ind2. intros a s ed md [Ha [Hd [Ht Hm]]].
   rewrite sel_run_unfold. unfold sel_node. rewrite fst_p_start_false, (pstart_dead p s nm ats Hd). cbn [fst mat mkPst].
   rewrite Ht.
   assert (K : forall l i, Forall (fun t => forall a s ed md, dead_state s ed md ->
-                                    sel_run V false p t a (s, ed, md) = ((s, ed, md), [])) l ->
+                                    sel_run V false false p t a (s, ed, md) = ((s, ed, md), [])) l ->
               forall s' ed' md', dead_state s' ed' md' ->
               sel_kids V false p i l a (s', ed', md') = ((s', ed', md'), [])).
   { induction l as [|k rest IHl]; intros i F s' ed' md' D; cbn [sel_kids]; [reflexivity|].
@@ -114,7 +114,7 @@ Proof. induction l as [|x l IH]; intros i H; cbn; [reflexivity|]. rewrite H, (IH
 
 (** the children of an element whose matcher state expects the steps [s2 :: r2] next *)
 Lemma live_kids : forall p (f : tree V -> list addr) (l : list (tree V)) i a st,
-  Forall (fun k => forall a, sel_run V false p k a st = (st, map (app (rev a)) (f k))) l ->
+  Forall (fun k => forall a, sel_run V false false p k a st = (st, map (app (rev a)) (f k))) l ->
   sel_kids V false p i l a st = (st, map (app (rev a)) (imap (fun j k => map (cons j) (f k)) i l)).
 Proof.
   induction l as [|k rest IHl]; intros i a st F; cbn [sel_kids imap map]; [reflexivity|].
@@ -125,7 +125,7 @@ Qed.
 (** the matcher in the middle of a child-only path: [done] steps are matched by the ancestors, [s :: r] remain *)
 Lemma live_run : forall steps (t : tree V) done s r a stk0 ed,
   steps = done ++ s :: r ->
-  sel_run V false (SSelf :: map SChild steps) t a (mkPst (S (length done)) stk0 0 0, ed, None) =
+  sel_run V false false (SSelf :: map SChild steps) t a (mkPst (S (length done)) stk0 0 0, ed, None) =
   ((mkPst (S (length done)) stk0 0 0, ed, None), map (app (rev a)) (mf V (s :: r) t)).
 Proof.
   intros steps t. induction t as [nm ats sm nl v ks IH] using tree_ind2. intros done s r a stk0 ed E.
@@ -182,7 +182,7 @@ Qed.
 (** T10_xpath_child_only: without ".//" the streaming matcher selects exactly (same nodes, same order) the
     specification's node set, for every tree and every list of steps *)
 Theorem matcher_child_only_exact : forall steps (t : tree V),
-  matcher_selects V false (compile_path (mkSpath false steps None)) t = sel_path V (mkSpath false steps None) t.
+  matcher_selects V false false (compile_path (mkSpath false steps None)) t = sel_path V (mkSpath false steps None) t.
 Proof.
   intros steps [nm ats sm nl v ks]. unfold matcher_selects. rewrite compile_child_only, sel_run_unfold.
   unfold sel_node, pst0. rewrite fst_p_start_false, (pstart_ctx (map SChild steps) [] nm ats (nth_map_child steps)).
